@@ -1213,6 +1213,20 @@ pub fn generate(seed: u64, cfg: &GenCfg) -> Scenario {
     }
     let nfiles = files.len();
     let stdin_lines = if nfiles == 0 { gen_lines(&mut rng) } else { vec![] };
+    if !cfg.small && !many && rng.chance(1, 120) && !files.is_empty() {
+        // deep overlap: a periodic pattern of 130-300 periods inside a longer run of the same
+        // period: more than 127 (sometimes more than 255) reported matches cover one byte
+        let unit = *rng.pick(&["=", "ab", "-", "xyx", "世"]);
+        let k = *rng.pick(&[130usize, 200, 260, 300]);
+        let p: String = unit.repeat(k);
+        if !patterns.contains(&p) {
+            patterns.push(p);
+            let run: String = unit.repeat(k + rng.range(100, 400));
+            let at = rng.below(files.len());
+            let pos = rng.below(files[at].1.len() + 1);
+            files[at].1.insert(pos, format!("q {run} q"));
+        }
+    }
     let dup_file = files.len() >= 1 && rng.chance(1, 12);
     let color = *rng.pick(&[Color::Default, Color::Never, Color::Always, Color::Always, Color::Always, Color::Auto]);
     let term = rng.pick(&[None, Some("xterm-256color"), Some("dumb"), Some("xterm")]).map(|s| s.to_string());
